@@ -49,18 +49,52 @@ fn streaming(drv: &mut DecDriver, enc: &'static Encoding, mode: BomMode, repl: b
 }
 
 pub fn check_decode(enc: &'static Encoding, bytes: &[u8], drv: &mut DecDriver, st: Option<&mut Stats>) -> Option<(String, String)> {
+    let r = {
+        let d = crate::guard::Desc { what: "Encoding::decode* (one-shot)", encoding: enc.name(), data: bytes.as_ptr(), len: bytes.len() };
+        let _g = crate::guard::enter(&d);
+        check_decode_inner(enc, bytes)
+    };
+    match r {
+        Err(e) => Some(e),
+        Ok(one) => compare_decode(enc, bytes, drv, one, st),
+    }
+}
+
+/// results of the four one-shot methods (computed under watchdog registration)
+struct OneShot {
+    decode: (Option<bool>, String, &'static Encoding, bool),
+    removal: (Option<bool>, String, bool),
+    plain: (Option<bool>, String, bool, Option<Option<bool>>, Option<String>),
+}
+
+fn check_decode_inner(enc: &'static Encoding, bytes: &[u8]) -> Result<OneShot, (String, String)> {
+    let (_, bomlen) = super::dech::expected_bom(enc, BomMode::Sniff, bytes);
+    let decode = fw::catch(|| {
+        let (c, e, h) = enc.decode(bytes);
+        (aliases(&c, bytes, bomlen), c.into_owned(), e, h)
+    })
+    .map_err(|p| ("decode".to_string(), format!("Encoding::decode panicked: {}", p)))?;
+    let (_, bomlen2) = super::dech::expected_bom(enc, BomMode::Remove, bytes);
+    let removal = fw::catch(|| {
+        let (c, h) = enc.decode_with_bom_removal(bytes);
+        (aliases(&c, bytes, bomlen2), c.into_owned(), h)
+    })
+    .map_err(|p| ("decode_with_bom_removal".to_string(), format!("panicked: {}", p)))?;
+    let plain = fw::catch(|| {
+        let (c, h) = enc.decode_without_bom_handling(bytes);
+        let o = enc.decode_without_bom_handling_and_without_replacement(bytes);
+        (aliases(&c, bytes, 0), c.into_owned(), h, o.as_ref().map(|c| aliases(c, bytes, 0)), o.map(|c| c.into_owned()))
+    })
+    .map_err(|p| ("decode_without_bom_handling".to_string(), format!("panicked: {}", p)))?;
+    Ok(OneShot { decode, removal, plain })
+}
+
+fn compare_decode(enc: &'static Encoding, bytes: &[u8], drv: &mut DecDriver, one: OneShot, st: Option<&mut Stats>) -> Option<(String, String)> {
     let mut nontrivial = false;
     // ---- decode (BOM sniffing)
     {
         let (exp_enc, bomlen) = super::dech::expected_bom(enc, BomMode::Sniff, bytes);
-        let r = fw::catch(|| {
-            let (c, e, h) = enc.decode(bytes);
-            (aliases(&c, bytes, bomlen), c.into_owned(), e, h)
-        });
-        let (al, text, e, h) = match r {
-            Ok(x) => x,
-            Err(p) => return Some(("decode".into(), format!("Encoding::decode panicked: {}", p))),
-        };
+        let (al, text, e, h) = one.decode;
         let (stext, shad, senc, _) = match streaming(drv, enc, BomMode::Sniff, true, bytes) {
             Ok(x) => x,
             Err(m) => return Some(("decode".into(), format!("streaming reference failed: {}", m))),
@@ -91,14 +125,7 @@ pub fn check_decode(enc: &'static Encoding, bytes: &[u8], drv: &mut DecDriver, s
     // ---- decode_with_bom_removal
     {
         let (_, bomlen) = super::dech::expected_bom(enc, BomMode::Remove, bytes);
-        let r = fw::catch(|| {
-            let (c, h) = enc.decode_with_bom_removal(bytes);
-            (aliases(&c, bytes, bomlen), c.into_owned(), h)
-        });
-        let (al, text, h) = match r {
-            Ok(x) => x,
-            Err(p) => return Some(("decode_with_bom_removal".into(), format!("panicked: {}", p))),
-        };
+        let (al, text, h) = one.removal;
         let (stext, shad, _, _) = match streaming(drv, enc, BomMode::Remove, true, bytes) {
             Ok(x) => x,
             Err(m) => return Some(("decode_with_bom_removal".into(), format!("streaming reference failed: {}", m))),
@@ -117,15 +144,7 @@ pub fn check_decode(enc: &'static Encoding, bytes: &[u8], drv: &mut DecDriver, s
     }
     // ---- decode_without_bom_handling and ..._and_without_replacement
     {
-        let r = fw::catch(|| {
-            let (c, h) = enc.decode_without_bom_handling(bytes);
-            let o = enc.decode_without_bom_handling_and_without_replacement(bytes);
-            (aliases(&c, bytes, 0), c.into_owned(), h, o.as_ref().map(|c| aliases(c, bytes, 0)), o.map(|c| c.into_owned()))
-        });
-        let (al, text, h, oal, otext) = match r {
-            Ok(x) => x,
-            Err(p) => return Some(("decode_without_bom_handling".into(), format!("panicked: {}", p))),
-        };
+        let (al, text, h, oal, otext) = one.plain;
         let (stext, shad, _, _) = match streaming(drv, enc, BomMode::None, true, bytes) {
             Ok(x) => x,
             Err(m) => return Some(("decode_without_bom_handling".into(), format!("streaming reference failed: {}", m))),
@@ -173,6 +192,8 @@ pub fn check_decode(enc: &'static Encoding, bytes: &[u8], drv: &mut DecDriver, s
 }
 
 pub fn check_encode(enc: &'static Encoding, text: &str, drv: &mut EncDriver) -> Option<String> {
+    let d = crate::guard::Desc { what: "Encoding::encode (one-shot), input is the text as UTF-8", encoding: enc.name(), data: text.as_ptr(), len: text.len() };
+    let _g = crate::guard::enter(&d);
     let r = fw::catch(|| {
         let (c, e, h) = enc.encode(text);
         let al = match &c {
